@@ -40,6 +40,7 @@ impl Session {
     /// Set the text to be executed.
     pub fn set_text(&mut self, text: String) {
         self.text = text;
+        self.position.set(0);
         
         self.text_parts = match Regex::new(r"\r\n|\n") {
             Ok(re) => re.split(&self.text).map(|item| item.to_string()).collect::<Vec<_>>(),
